@@ -120,6 +120,8 @@ func NewLiveDB(db *sqlgen.DB) *LiveDB {
 }
 
 type queryCacheKey struct {
+	// db tells the queries of two databases (shards) read in one computation apart.
+	db     *LiveDB
 	clause string
 	args   interface{}
 }
@@ -140,7 +142,7 @@ func (ldb *LiveDB) query(ctx context.Context, query *sqlgen.BaseSelectQuery) ([]
 
 	// Build a cache key for the query. Convert the args slice into an array so
 	// it can be stored as a map key.
-	key := queryCacheKey{clause: clause, args: internal.MakeHashable(args)}
+	key := queryCacheKey{db: ldb, clause: clause, args: internal.MakeHashable(args)}
 
 	result, err := reactive.Cache(ctx, key, func(ctx context.Context) (interface{}, error) {
 		// Build a tester for the dependency.
